@@ -288,9 +288,17 @@ func (s *state) node(t *rapid.T, d int) *ast.Node {
 			}
 			c.Kids[0] = ast.Group(rapid.SampledFrom(lk).Draw(t, "condlook"), s.node(t, d-1))
 		}
-		c.Kids[1] = s.node(t, d-1)
+		// inline option groups are not allowed as direct children of an expression conditional
+		// (a restriction inherited from .NET), so such branches are wrapped in (?:...)
+		wrap := func(b *ast.Node) *ast.Node {
+			if b.Has(func(x *ast.Node) bool { return x.K == ast.KOpt }) {
+				return ast.Group(ast.GNon, b)
+			}
+			return b
+		}
+		c.Kids[1] = wrap(s.node(t, d-1))
 		if rapid.IntRange(0, 3).Draw(t, "hasno") != 0 {
-			c.Kids[2] = s.node(t, d-1)
+			c.Kids[2] = wrap(s.node(t, d-1))
 		}
 		return c
 	case k == 11 && s.cfg.Inline != "":
